@@ -357,8 +357,17 @@ func (r *Runner) stmtSync(ctx context.Context, st *syntax.Stmt) {
 		// such as the body of a function or a brace group.
 		oldInNegated := r.inNegated
 		r.inNegated = r.inNegated || st.Negated
+		r.exitNegated = false
 		r.cmd(ctx, st.Cmd)
 		r.inNegated = oldInNegated
+		if !r.inNegated {
+			r.errExitSetInNegated = false
+		}
+		if _, ok := st.Cmd.(*syntax.CallExpr); ok {
+			// The status of a simple command, such as a function call,
+			// is its own even if a negation inside produced it.
+			r.exitNegated = false
+		}
 	}
 	if st.Negated && !r.exit.exiting && !r.exit.returning {
 		// "!" inverts the status of a command that completed; it must not
@@ -368,17 +377,18 @@ func (r *Runner) stmtSync(ctx context.Context, st *syntax.Stmt) {
 		} else {
 			r.exit.clear()
 		}
+		r.exitNegated = true
 	} else if b, ok := st.Cmd.(*syntax.BinaryCmd); ok && (b.Op == syntax.AndStmt || b.Op == syntax.OrStmt) {
 	} else if r.exit.exiting || r.exit.returning {
 		// "exit 1" and "return 1" are not failed commands.
-	} else if !r.exit.ok() && !r.noErrExit {
+	} else if !r.exit.ok() && !r.noErrExit && !r.exitNegated {
 		r.trapCallback(ctx, r.callbackErr, "error")
 		// If the "errexit" option is set and a command failed, exit the shell. Exceptions:
 		//
 		//   conditions (if <cond>, while <cond>, etc)
 		//   part of && or || lists; excluded via "else" above
 		//   preceded by !; excluded via "else" above
-		if r.opts[optErrExit] && !r.inNegated {
+		if r.opts[optErrExit] && (!r.inNegated || r.errExitSetInNegated) {
 			r.exit.exiting = true
 		}
 	}
